@@ -7,7 +7,6 @@
 package py
 
 import (
-	"fmt"
 	"math"
 	"math/big"
 	"strconv"
@@ -47,11 +46,33 @@ func FloatNew(metatype *Type, args Tuple, kwargs StringDict) (Object, error) {
 	return MakeFloat(xObj)
 }
 
+// M__str__ gives the shortest string which converts back to the same
+// float, as float_repr in CPython does (format code 'r')
 func (a Float) M__str__() (Object, error) {
-	if i := int64(a); Float(i) == a {
-		return String(fmt.Sprintf("%d.0", i)), nil
+	f := float64(a)
+	switch {
+	case math.IsNaN(f):
+		return String("nan"), nil
+	case math.IsInf(f, 1):
+		return String("inf"), nil
+	case math.IsInf(f, -1):
+		return String("-inf"), nil
 	}
-	return String(fmt.Sprintf("%g", a)), nil
+	// shortest digits in exponent form, eg 1.2345e+08, to find the decimal exponent
+	s := strconv.FormatFloat(f, 'e', -1, 64)
+	exp, err := strconv.Atoi(s[strings.IndexByte(s, 'e')+1:])
+	if err != nil {
+		return nil, err
+	}
+	// Python uses the exponent form if exp < -4 or exp >= 16.  Like
+	// Go it writes at least two exponent digits: 1e+16, 1e-05
+	if exp >= -4 && exp < 16 {
+		s = strconv.FormatFloat(f, 'f', -1, 64)
+		if !strings.ContainsRune(s, '.') {
+			s += ".0"
+		}
+	}
+	return String(s), nil
 }
 
 func (a Float) M__repr__() (Object, error) {
